@@ -863,6 +863,14 @@ class Exec:
             if r is NotImplemented:
                 raise OutOfSubset('mutation through %s' % ast.unparse(target_expr)[:40])
             self._rebind(st, target_expr.value, r)
+        elif isinstance(target_expr, ast.Subscript):
+            # res[i][k] = v: the updated inner container is stored back into its slot of the outer one, and so on up to a local
+            outer = self.eval(st, target_expr.value)
+            idx = self.eval(st, target_expr.slice)
+            r = self._dispatch('store_subscript', st, target_expr, outer, idx, newval)
+            if r is NotImplemented:
+                raise OutOfSubset('mutation through %s' % ast.unparse(target_expr)[:40])
+            self._rebind(st, target_expr.value, r)
         else:
             raise OutOfSubset('mutation through %s' % ast.unparse(target_expr)[:40])
 
